@@ -51,7 +51,7 @@ var (
 var propVariants = map[string][]variant{
 	"C04": {vStd, vPurego, vNoAVX},
 	"C17": {vStd, vPurego, vNoAVX},
-	"C15": {vRace},
+	"C15": {vStd, vRace},
 	"C16": {vStd, vRaceT},
 	"C20": {vStd, vRace},
 	"C08": {vStd, vRaceT},
@@ -375,7 +375,14 @@ func run(prop, tier string, seed uint64) int {
 				}
 				if open < 0 {
 					// died between cases or at start
-					if err != nil {
+					raceExit := false
+					if code == 66 {
+						// the race detector's exit status after all cases ran: its reports are in the race log and become `race` violations
+						if m, _ := filepath.Glob(filepath.Join(runDir, "race-"+tag+".*")); len(m) > 0 {
+							raceExit = true
+						}
+					}
+					if err != nil && !raceExit {
 						mu.Lock()
 						inconclusive = append(inconclusive, fmt.Sprintf("child %s exited %d outside any case: %s", tag, code, firstLine(tail)))
 						mu.Unlock()
